@@ -14,6 +14,10 @@ import Fpdec.Props.C04_Sites
 * `checkedDivRounded_spec`: the shared kernel `checked_div_rounded(a, p, b, q, n)` returns the exact quotient
   `a·10^(n+q) / (b·10^p)` rounded ONCE under the thread mode — in all four scaling branches: equal scales, dividend scaled
   (narrow), dividend scaled through the 256-bit path, and divisor scaled (the repaired branch, `specRound_two_step`).
+  The dividend `a` ranges over the WHOLE i128 range (an integer operand may be `i128::MIN`); the one excluded pair is
+  `i128::MIN / -1` without scaling of the dividend, where the plain `/` panics (`checkedDivRounded_min_neg_one`): the exact
+  quotient `2^127` is not an i128, the spec expects the overflow signal and the operator forms accept that panic as such
+  (`div_rounded_body_full`); `checked_div` never gets there (its dividend is scaled by `10^18`, which goes the 256-bit way).
 * `div_rounded_spec` and the integer-operand shapes; `n > 18` is rejected for the three guarded shapes; the
   unguarded integer/integer shape is the open finding D8 (`div_rounded_int_int_partial`, witness below).
 * `mul_rounded_spec`, `quantize_spec`.
@@ -27,10 +31,10 @@ open Fpdec Fpdec.Model
     the non-negative remainder; for a negative divisor (live after the D13 repair) the same floor quotient, written with the negated
     operands, and a remainder with the sign of the divisor -/
 def WideDiv : Prop :=
-  (∀ (prof : Profile) (x : Int) (p : Nat) (y : Int), (I128_MIN < x ∧ x ≤ I128_MAX) → p ≤ 38 → (0 < y ∧ y ≤ I128_MAX) →
+  (∀ (prof : Profile) (x : Int) (p : Nat) (y : Int), (I128_MIN ≤ x ∧ x ≤ I128_MAX) → p ≤ 38 → (0 < y ∧ y ≤ I128_MAX) →
     i128ShiftedDivModFloor prof x p y =
       .ok (if ((x * 10 ^ p).natAbs / y.natAbs : Nat) ≤ I128_MAX.toNat then some ((x * 10 ^ p) / y, (x * 10 ^ p) % y) else none)) ∧
-  (∀ (prof : Profile) (x : Int) (p : Nat) (y : Int), (I128_MIN < x ∧ x ≤ I128_MAX) → p ≤ 38 → (I128_MIN ≤ y ∧ y < 0) →
+  (∀ (prof : Profile) (x : Int) (p : Nat) (y : Int), (I128_MIN ≤ x ∧ x ≤ I128_MAX) → p ≤ 38 → (I128_MIN ≤ y ∧ y < 0) →
     i128ShiftedDivModFloor prof x p y =
       .ok (if ((x * 10 ^ p).natAbs / y.natAbs : Nat) ≤ I128_MAX.toNat
         then some ((-(x * 10 ^ p)) / (-y), -((-(x * 10 ^ p)) % (-y))) else none))
@@ -64,9 +68,11 @@ theorem specRoundQ_norm (m : Mode) (n d : Int) (hd : d ≠ 0) :
 theorem pow_split (k j : Nat) (h : j ≤ k) : (10 : Int) ^ k = (10 : Int) ^ (k - j) * (10 : Int) ^ j := by
   rw [← Int.pow_add]; congr 1; omega
 
-/-- the continuation of the divisor-scaled branch after the sign-normalised floor division -/
-theorem gt_tail (prof : Profile) (tm : Mode) (a' b' : Int) (n s : Nat)
-    (ha' : I128_MIN < a' ∧ a' ≤ I128_MAX) (hb' : 0 < b' ∧ b' ≤ I128_MAX + 1) (hs : 1 ≤ s ∧ s ≤ 18) :
+/-- the continuation of the divisor-scaled branch after the sign-normalised floor division; the sign-normalised dividend ranges over
+    `i128::MIN ..= 2^127` (`2^127 = -i128::MIN` for a negative divisor other than `-1`) -/
+theorem gt_tail_full (prof : Profile) (tm : Mode) (a' b' : Int) (n s : Nat)
+    (ha' : I128_MIN ≤ a' ∧ a' ≤ I128_MAX + 1) (hb' : 0 < b' ∧ b' ≤ I128_MAX + 1) (hs : 1 ≤ s ∧ s ≤ 18)
+    (hc : a' = I128_MAX + 1 → 2 ≤ b') :
     Spec.allowedChecked (Spec.valFit (Spec.specRound tm a' (b' * (10 : Int) ^ s)) n)
       (outOptInt n (do
         let t ← tenPow s
@@ -85,15 +91,19 @@ theorem gt_tail (prof : Profile) (tm : Mode) (a' b' : Int) (n s : Nat)
   have hq1 := Int.emod_nonneg a' (Int.ne_of_gt hb'.1)
   have hq2 := Int.emod_lt_of_pos a' hb'.1
   have hq3 := Int.mul_ediv_add_emod a' b'
-  -- |a'/b'| ≤ |a'|
-  have hqf : I128_MIN < a' / b' ∧ a' / b' ≤ I128_MAX := by
+  -- |a'/b'| ≤ |a'|, and ≤ 2^126 when a' = 2^127 (then b' ≥ 2)
+  have hqf : I128_MIN ≤ a' / b' ∧ a' / b' ≤ I128_MAX := by
     unfold I128_MIN I128_MAX at *
     constructor
     · by_cases hxn : 0 ≤ a'
       · have := Int.ediv_nonneg hxn (Int.le_of_lt hb'.1); omega
       · have := ediv_ge_of_neg (x := a') (by omega) hb'.1; omega
     · by_cases hxn : 0 ≤ a'
-      · have := Int.ediv_le_self b' hxn; omega
+      · by_cases hb2 : 2 ≤ b'
+        · have h0 := Int.ediv_nonneg hxn (Int.le_of_lt hb'.1)
+          have : 2 * (a' / b') ≤ b' * (a' / b') := Int.mul_le_mul_of_nonneg_right hb2 h0
+          omega
+        · have := Int.ediv_le_self b' hxn; omega
       · have := Int.ediv_neg_of_neg_of_pos (show a' < 0 by omega) hb'.1; omega
   have hpl : (10 : Int) ^ s ≤ I128_MAX := C02.pow10_le_max' (by omega)
   by_cases hrem : a' % b' = 0
@@ -104,7 +114,7 @@ theorem gt_tail (prof : Profile) (tm : Mode) (a' b' : Int) (n s : Nat)
     have := specRound_exact_step tm (a' / b') b' ((10 : Int) ^ s) hb'.1 hts
     rw [← hab] at this
     rw [← this]
-    exact valFit_some _ _ (specRound_fits tm _ _ ⟨by omega, hqf.2⟩ hts)
+    exact valFit_some _ _ (specRound_fits tm _ _ hqf hts)
   · simp only [hrem, if_false]
     -- rem ≠ 0 ⇒ b' ≥ 2 ⇒ |quot| ≤ 2^126: the doubled operands fit
     have hb2 : 2 ≤ b' := by omega
@@ -139,10 +149,46 @@ theorem gt_tail (prof : Profile) (tm : Mode) (a' b' : Int) (n s : Nat)
     rw [← specRound_two_step tm a' b' _ hb'.1 hts heven hrem]
     exact specRound_fits tm _ _ ((fitsI128_iff _).mp f2) (by omega)
 
+/-- `gt_tail_full` for a sign-normalised dividend inside the i128 range -/
+theorem gt_tail (prof : Profile) (tm : Mode) (a' b' : Int) (n s : Nat)
+    (ha' : I128_MIN ≤ a' ∧ a' ≤ I128_MAX) (hb' : 0 < b' ∧ b' ≤ I128_MAX + 1) (hs : 1 ≤ s ∧ s ≤ 18) :
+    Spec.allowedChecked (Spec.valFit (Spec.specRound tm a' (b' * (10 : Int) ^ s)) n)
+      (outOptInt n (do
+        let t ← tenPow s
+        if (a' / b', a' % b').2 = 0 then do
+          let c ← i128DivRounded prof tm (a' / b', a' % b').1 t none
+          pure (some c)
+        else do
+          let q2 ← plainI128 prof (2 * (a' / b', a' % b').1)
+          let q2 ← plainI128 prof (q2 + 1)
+          let t2 ← plainI128 prof (2 * t)
+          let c ← i128DivRounded prof tm q2 t2 none
+          pure (some c))) = true :=
+  gt_tail_full prof tm a' b' n s ⟨ha'.1, by omega⟩ hb' hs (by omega)
 
+/-- the one pair of i128 operands whose exact quotient `2^127` is not an i128: when the dividend `i128::MIN` does not have to be
+    scaled, `i128::MIN / -1` is evaluated by the plain operator and panics in every profile (Rust's behaviour) -/
+theorem checkedDivRounded_min_neg_one (prof : Profile) (tm : Mode) (p q n : Nat) (h : n + q ≤ p) (hnq : n + q ≤ 255) :
+    checkedDivRounded prof tm I128_MIN p (-1) q n = .panic .arith := by
+  unfold checkedDivRounded
+  rw [plainU8_ok prof (x := (n : Int) + (q : Int)) (by omega) (by omega)]
+  have hnq' : ((n : Int) + (q : Int)).toNat = n + q := by omega
+  simp only [Outcome.bind_ok, hnq']
+  rcases Nat.eq_or_lt_of_le h with heq | hgt
+  · have hc : compare p (n + q) = .eq := by rw [heq]; simp
+    simp only [hc]
+    rw [i128DivRounded_min_neg_one]
+    rfl
+  · have hc : compare p (n + q) = .gt := Nat.compare_eq_gt.mpr hgt
+    simp only [hc]
+    rw [i128DivModFloor_min_neg_one]
+    rfl
+
+/-- `checked_div_rounded(a, p, b, q, n)` for EVERY i128 dividend `a` (`i128::MIN` included: an integer operand) except the pair
+    `(i128::MIN, -1)` without scaling of the dividend (`checkedDivRounded_min_neg_one`) -/
 theorem checkedDivRounded_spec (hw : WideDiv) (prof : Profile) (tm : Mode) (a : Int) (p : Nat) (b : Int) (q n : Nat)
-    (ha : I128_MIN < a ∧ a ≤ I128_MAX) (hb : I128_MIN ≤ b ∧ b ≤ I128_MAX) (hb0 : b ≠ 0)
-    (hp : p ≤ 18) (hq : q ≤ 18) (hn : n ≤ 18) :
+    (ha : I128_MIN ≤ a ∧ a ≤ I128_MAX) (hb : I128_MIN ≤ b ∧ b ≤ I128_MAX) (hb0 : b ≠ 0)
+    (hp : p ≤ 18) (hq : q ≤ 18) (hn : n ≤ 18) (hc1 : ¬ (a = I128_MIN ∧ b = -1 ∧ n + q ≤ p)) :
     Spec.allowedChecked (specDivCore tm a p b q n) (outOptInt n (checkedDivRounded prof tm a p b q n)) = true := by
   unfold checkedDivRounded specDivCore
   rw [plainU8_ok prof (x := (n : Int) + (q : Int)) (by omega) (by omega)]
@@ -223,15 +269,18 @@ theorem checkedDivRounded_spec (hw : WideDiv) (prof : Profile) (tm : Mode) (a : 
   · -- equal scales
     have hc : compare p (n + q) = .eq := by rw [heq]; simp
     simp only [hc]
-    rw [i128DivRounded_spec prof tm none a b ha hb hb0]
+    rw [i128DivRounded_spec_full prof tm none a b ha hb hb0 (fun h => hc1 ⟨h.1, h.2, by omega⟩)]
     simp only [Outcome.bind_ok, Option.getD_none, outOptInt]
     have hspec : Spec.specRoundQ tm (a * (10 : Int) ^ (n + q)) (b * (10 : Int) ^ p) = Spec.specRoundQ tm a b := by
       rw [← heq]; exact specRoundQ_scale tm a b _ hb0 hpp
     rw [hspec, specRoundQ_norm tm a b hb0]
     apply valFit_some
-    apply specRound_fits
+    apply specRound_fits_abs
     · unfold I128_MIN I128_MAX at *; split <;> omega
     · split <;> omega
+    · intro h
+      have hb1 : b ≠ -1 := fun h1 => hc1 ⟨by unfold I128_MIN I128_MAX at *; split at h <;> omega, h1, by omega⟩
+      unfold I128_MIN I128_MAX at *; split at h <;> split <;> omega
   · -- divisor must be scaled: floor-divide first, then round once (repaired branch)
     have hc : compare p (n + q) = .gt := Nat.compare_eq_gt.mpr hgt
     simp only [hc]
@@ -247,7 +296,8 @@ theorem checkedDivRounded_spec (hw : WideDiv) (prof : Profile) (tm : Mode) (a : 
         · omega) (pow10_pos _)
     rw [hspec]
     by_cases hneg : b < 0
-    · rw [i128DivModFloor_neg' prof a b ha hneg hb.1]
+    · have hb1 : a = I128_MIN → b ≠ -1 := fun h0 h1 => hc1 ⟨h0, h1, by omega⟩
+      rw [i128DivModFloor_neg_full prof a b ha hneg hb.1 (fun h => hb1 h.1 h.2)]
       simp only [Outcome.bind_ok]
       have hsp : Spec.specRoundQ tm a (b * (10 : Int) ^ (p - (n + q))) =
           Spec.specRound tm (-a) (-b * (10 : Int) ^ (p - (n + q))) := by
@@ -255,8 +305,9 @@ theorem checkedDivRounded_spec (hw : WideDiv) (prof : Profile) (tm : Mode) (a : 
         rw [specRoundQ_neg tm a _ this, Int.neg_mul]
       rw [hsp]
       have hz : (-(-a % -b) = 0) ↔ (-a % -b = 0) := by omega
-      have key := gt_tail prof tm (-a) (-b) n (p - (n + q)) (by unfold I128_MIN I128_MAX at *; omega)
+      have key := gt_tail_full prof tm (-a) (-b) n (p - (n + q)) (by unfold I128_MIN I128_MAX at *; omega)
         (by unfold I128_MIN I128_MAX at *; omega) hs
+        (fun h => by have := hb1 (by unfold I128_MIN I128_MAX at *; omega); omega)
       simp only [hz] at key ⊢
       exact key
     · have f1 : fitsI128 a = true := by rw [fitsI128_iff]; omega
@@ -287,21 +338,47 @@ theorem op_of_kernel (e : Spec.Exp) (n : Nat) (r : Outcome (Option Int))
     | none => cases e <;> simp [Spec.allowedChecked, Spec.allowedOp, Spec.isOvfPanic, outOptInt] at h hn hnn hnf ⊢
     | some v => cases e <;> simp [Spec.allowedChecked, Spec.allowedOp, outOptInt] at h hn hnn hnf ⊢ <;> exact h
 
-/-- the common body of the four `div_rounded` shapes after the guards -/
+/-- the exact quotient of `i128::MIN / -1` at equal scales is `2^127`: the spec expects the overflow signal -/
+theorem specDivCore_min_neg_one (tm : Mode) (q n : Nat) : specDivCore tm I128_MIN (n + q) (-1) q n = .ovf := by
+  unfold specDivCore
+  rw [specRoundQ_scale tm I128_MIN (-1) _ (by decide) (pow10_pos _)]
+  have e : Spec.specRoundQ tm I128_MIN (-1) = 170141183460469231731687303715884105728 := by
+    cases tm <;> decide
+  rw [e, valFit_eq, if_neg (by decide), if_neg (by decide)]
+
+/-- the common body of the four `div_rounded` shapes after the guards, for EVERY i128 dividend: the operator form accepts the
+    `i128::MIN / -1` panic as the overflow signal the spec expects there (`2^127` is not representable); only the combination
+    "dividend `i128::MIN` with more fractional digits than `n + q`" is outside (not a `Decimal`, and an integer has `p = 0`) -/
+theorem div_rounded_body_full (hw : WideDiv) (prof : Profile) (tm : Mode) (a : Int) (p : Nat) (b : Int) (q n : Nat)
+    (ha : I128_MIN ≤ a ∧ a ≤ I128_MAX) (hb : I128_MIN ≤ b ∧ b ≤ I128_MAX) (hb0 : b ≠ 0)
+    (hp : p ≤ 18) (hq : q ≤ 18) (hn : n ≤ 18) (hc : ¬ (a = I128_MIN ∧ b = -1 ∧ n + q < p)) :
+    Spec.allowedOp (specDivCore tm a p b q n) (outPair (do
+      match ← checkedDivRounded prof tm a p b q n with
+      | some c => pure ⟨c, n⟩
+      | none => Outcome.panic PanicKind.overflow)) = true := by
+  by_cases hcorner : a = I128_MIN ∧ b = -1 ∧ n + q ≤ p
+  · obtain ⟨h1, h2, h3⟩ := hcorner
+    have hpe : p = n + q := by omega
+    subst h1; subst h2; subst hpe
+    rw [checkedDivRounded_min_neg_one prof tm (n + q) q n (Nat.le_refl _) (by omega), specDivCore_min_neg_one]
+    rfl
+  · have hk := checkedDivRounded_spec hw prof tm a p b q n ha hb hb0 hp hq hn hcorner
+    obtain ⟨s1, s2, s3⟩ := specDivCore_shape tm a p b q n
+    generalize checkedDivRounded prof tm a p b q n = r at hk ⊢
+    have := op_of_kernel _ n r hk s1 s2 s3
+    cases r with
+    | panic k => exact this
+    | ok o => cases o <;> exact this
+
+/-- `div_rounded_body_full` for a dividend of the Decimal coefficient range -/
 theorem div_rounded_body (hw : WideDiv) (prof : Profile) (tm : Mode) (a : Int) (p : Nat) (b : Int) (q n : Nat)
     (ha : I128_MIN < a ∧ a ≤ I128_MAX) (hb : I128_MIN ≤ b ∧ b ≤ I128_MAX) (hb0 : b ≠ 0)
     (hp : p ≤ 18) (hq : q ≤ 18) (hn : n ≤ 18) :
     Spec.allowedOp (specDivCore tm a p b q n) (outPair (do
       match ← checkedDivRounded prof tm a p b q n with
       | some c => pure ⟨c, n⟩
-      | none => Outcome.panic PanicKind.overflow)) = true := by
-  have hk := checkedDivRounded_spec hw prof tm a p b q n ha hb hb0 hp hq hn
-  obtain ⟨s1, s2, s3⟩ := specDivCore_shape tm a p b q n
-  generalize checkedDivRounded prof tm a p b q n = r at hk ⊢
-  have := op_of_kernel _ n r hk s1 s2 s3
-  cases r with
-  | panic k => exact this
-  | ok o => cases o <;> exact this
+      | none => Outcome.panic PanicKind.overflow)) = true :=
+  div_rounded_body_full hw prof tm a p b q n ⟨Int.le_of_lt ha.1, ha.2⟩ hb hb0 hp hq hn (fun h => by omega)
 
 /-- `Decimal.div_rounded(Decimal, n)` for every `n : u8` -/
 theorem div_rounded_spec (hw : WideDiv) (prof : Profile) (tm : Mode) (x y : Dec) (n : Nat) (hx : Dom x) (hy : Dom y) :
@@ -341,7 +418,7 @@ theorem div_rounded_dec_int_spec (hw : WideDiv) (prof : Profile) (tm : Mode) (x 
 
 /-- `int.div_rounded(Decimal, n)` (guarded since the D8 repair) -/
 theorem div_rounded_int_dec_spec (hw : WideDiv) (prof : Profile) (tm : Mode) (i : Int) (y : Dec) (n : Nat) (hy : Dom y)
-    (hi : I128_MIN < i ∧ i ≤ I128_MAX) :
+    (hi : I128_MIN ≤ i ∧ i ≤ I128_MAX) :
     Spec.allowedOp (Spec.divRounded tm i 0 y.coeff y.nfrac n) (outPair (divRoundedIntDec prof tm i y n)) = true := by
   obtain ⟨b, q⟩ := y
   unfold divRoundedIntDec Spec.divRounded
@@ -355,7 +432,8 @@ theorem div_rounded_int_dec_spec (hw : WideDiv) (prof : Profile) (tm : Mode) (i 
       by_cases ha0 : i = 0
       · simp [ha0, Spec.allowedOp, Dec.ZERO]
       · simp only [ha0, if_false]
-        exact div_rounded_body hw prof tm i 0 b q n hi ⟨Int.le_of_lt hy.1, hy.2.1⟩ hb0 (by omega) hy.2.2 (by omega)
+        exact div_rounded_body_full hw prof tm i 0 b q n hi ⟨Int.le_of_lt hy.1, hy.2.1⟩ hb0 (by omega) hy.2.2 (by omega)
+          (fun h => by omega)
 
 /- FULL STATEMENT (false for the current code — open finding D8):
      ∀ n, allowedOp (Spec.divRounded tm i 0 j 0 n) (outPair (divRoundedIntInt prof tm i j n))
@@ -364,7 +442,7 @@ theorem div_rounded_int_dec_spec (hw : WideDiv) (prof : Profile) (tm : Mode) (i 
 
 /-- `int.div_rounded(int, n)` restricted to `n ≤ 18` -/
 theorem div_rounded_int_int_partial (hw : WideDiv) (prof : Profile) (tm : Mode) (i j : Int) (n : Nat) (hn : n ≤ 18)
-    (hi : I128_MIN < i ∧ i ≤ I128_MAX) (hj : I128_MIN ≤ j ∧ j ≤ I128_MAX) :
+    (hi : I128_MIN ≤ i ∧ i ≤ I128_MAX) (hj : I128_MIN ≤ j ∧ j ≤ I128_MAX) :
     Spec.allowedOp (Spec.divRounded tm i 0 j 0 n) (outPair (divRoundedIntInt prof tm i j n)) = true := by
   unfold divRoundedIntInt Spec.divRounded
   have hn' : ¬ n > 18 := by omega
@@ -375,7 +453,7 @@ theorem div_rounded_int_int_partial (hw : WideDiv) (prof : Profile) (tm : Mode) 
     by_cases ha0 : i = 0
     · simp [ha0, Spec.allowedOp, Dec.ZERO]
     · simp only [ha0, if_false]
-      exact div_rounded_body hw prof tm i 0 j 0 n hi hj hb0 (by omega) (by omega) hn
+      exact div_rounded_body_full hw prof tm i 0 j 0 n hi hj hb0 (by omega) (by omega) hn (fun h => by omega)
 
 /-- witness of the open finding: `1u64.div_rounded(3u64, 19)` returns 19 fractional digits instead of panicking -/
 theorem div_rounded_int_n19_witness :
@@ -512,7 +590,7 @@ theorem quantize_dec_int_spec (hwd : WideDiv) (prof : Profile) (tm : Mode) (x : 
 
 /-- `int.quantize(Decimal)` -/
 theorem quantize_int_dec_spec (hwm : C02.WideMul) (hwd : WideDiv) (prof : Profile) (tm : Mode) (i : Int) (q : Dec) (hq : Dom q)
-    (hi : I128_MIN < i ∧ i ≤ I128_MAX) :
+    (hi : I128_MIN ≤ i ∧ i ≤ I128_MAX) :
     Spec.allowedOp (Spec.quantize tm false i 0 q.coeff q.nfrac) (outPair (quantizeIntDec prof tm i q)) = true := by
   rw [spec_quantize_eq]
   unfold quantizeIntDec
@@ -524,7 +602,7 @@ theorem quantize_int_dec_spec (hwm : C02.WideMul) (hwd : WideDiv) (prof : Profil
 
 /-- `int.quantize(int)` (`n = 0`, so the missing guard of the int/int shape is irrelevant here) -/
 theorem quantize_int_int_spec (hwd : WideDiv) (prof : Profile) (tm : Mode) (i j : Int)
-    (hi : I128_MIN < i ∧ i ≤ I128_MAX) (hj : I128_MIN ≤ j ∧ j ≤ I128_MAX) :
+    (hi : I128_MIN ≤ i ∧ i ≤ I128_MAX) (hj : I128_MIN ≤ j ∧ j ≤ I128_MAX) :
     Spec.allowedOp (Spec.quantize tm true i 0 j 0) (outPair (quantizeIntInt prof tm i j)) = true := by
   rw [spec_quantize_eq]
   unfold quantizeIntInt
@@ -542,6 +620,36 @@ example : divRoundedDecInt Profile.release .heven ⟨1, 0⟩ 3 19 = .panic .nfra
 example : divRoundedDecInt Profile.dev .up ⟨1515, 1⟩ I128_MIN 1 = .ok ⟨-1, 1⟩ := by decide
 example : divRoundedDecInt Profile.release .up ⟨1515, 1⟩ I128_MIN 1 = .ok ⟨-1, 1⟩ := by decide
 example : mulRounded Profile.dev .hup ⟨15, 1⟩ ⟨15, 1⟩ 1 = .ok ⟨23, 1⟩ := by decide
+-- the dividend `i128::MIN` (an integer operand): narrow path, wide path, and the one pair whose exact quotient `2^127` overflows
+-- (`i128::MIN / -1` panics in `i128_div_mod_floor`; the spec expects the overflow signal there)
+example : divRoundedIntDec Profile.dev .heven I128_MIN ⟨-3, 0⟩ 0 = .ok ⟨56713727820156410577229101238628035243, 0⟩ ∧
+    Spec.allowedOp (Spec.divRounded .heven I128_MIN 0 (-3) 0 0) (outPair (divRoundedIntDec Profile.dev .heven I128_MIN ⟨-3, 0⟩ 0)) = true := by
+  decide
+example : divRoundedIntDec Profile.release .hup I128_MIN ⟨I128_MIN + 1, 0⟩ 1 = .ok ⟨10, 1⟩ ∧
+    Spec.allowedOp (Spec.divRounded .hup I128_MIN 0 (I128_MIN + 1) 0 1)
+      (outPair (divRoundedIntDec Profile.release .hup I128_MIN ⟨I128_MIN + 1, 0⟩ 1)) = true := by
+  decide
+example : divRoundedIntDec Profile.dev .heven I128_MIN ⟨-1, 0⟩ 0 = .panic .arith ∧
+    Spec.divRounded .heven I128_MIN 0 (-1) 0 0 = .ovf ∧
+    Spec.allowedOp (Spec.divRounded .heven I128_MIN 0 (-1) 0 0) (outPair (divRoundedIntDec Profile.dev .heven I128_MIN ⟨-1, 0⟩ 0)) = true := by
+  decide
+example : divRoundedIntInt Profile.dev .heven I128_MIN (-2) 0 = .ok ⟨85070591730234615865843651857942052864, 0⟩ ∧
+    Spec.allowedOp (Spec.divRounded .heven I128_MIN 0 (-2) 0 0) (outPair (divRoundedIntInt Profile.dev .heven I128_MIN (-2) 0)) = true := by
+  decide
+example : divRoundedIntInt Profile.release .heven I128_MIN (-1) 0 = .panic .arith ∧
+    Spec.allowedOp (Spec.divRounded .heven I128_MIN 0 (-1) 0 0) (outPair (divRoundedIntInt Profile.release .heven I128_MIN (-1) 0)) = true := by
+  decide
+example : checkedDivRounded Profile.dev .heven I128_MIN 0 (-1) 0 0 = .panic .arith ∧
+    checkedDivRounded Profile.dev .heven I128_MIN 0 (-1) 0 1 = .ok none := by decide
+example : quantizeIntDec Profile.dev .heven I128_MIN ⟨-25, 1⟩ = .panic .overflow ∧
+    Spec.allowedOp (Spec.quantize .heven false I128_MIN 0 (-25) 1) (outPair (quantizeIntDec Profile.dev .heven I128_MIN ⟨-25, 1⟩)) = true := by
+  decide
+example : quantizeIntDec Profile.dev .heven I128_MIN ⟨I128_MAX, 0⟩ = .ok ⟨-I128_MAX, 0⟩ ∧
+    Spec.allowedOp (Spec.quantize .heven false I128_MIN 0 I128_MAX 0) (outPair (quantizeIntDec Profile.dev .heven I128_MIN ⟨I128_MAX, 0⟩)) = true := by
+  decide
+example : quantizeIntInt Profile.dev .heven I128_MIN 4 = .ok ⟨I128_MIN, 0⟩ ∧
+    Spec.allowedOp (Spec.quantize .heven true I128_MIN 0 4 0) (outPair (quantizeIntInt Profile.dev .heven I128_MIN 4)) = true := by
+  decide
 
 /-! ### translated kernels
 The Lean definitions `Gen.K.*` are regenerated from the Rust source on every run by `tools/fpkernels.py` (expression-level
